@@ -43,6 +43,7 @@ Example C01_field_lookup_nonvacuous :
   std_lookup names [78; 65; 77; 69]%N = Some 0%nat /\ std_lookup names [78; 97; 109; 101]%N = Some 1%nat /\
   std_lookup names [120]%N = None.
 Proof. exact field_lookup_std_nonvacuous. Qed.
+Print Assumptions C01_field_lookup_nonvacuous.
 
 (* ------------------------------------------------------------------ range checks, trailing data *)
 
@@ -65,6 +66,7 @@ Print Assumptions C01_range_unsigned_imm32_pitfall.
 
 Example C01_range_nonvacuous : accept_op I8 (-128) = true /\ accept_op U32 4294967295 = true /\ accept_op U8 256 = false.
 Proof. exact range_accepts_something. Qed.
+Print Assumptions C01_range_nonvacuous.
 
 (* CheckTrailings succeeds iff only JSON whitespace follows the value *)
 Theorem C01_trailing_spec : forall buf pos, Forall (fun c => (c < 256)%N) buf ->
@@ -104,11 +106,13 @@ Print Assumptions C01_bind_agree.
 Example C01_bind_agree_nonvacuous : forall o, (o = opts_std \/ o = opts_default) ->
   frag ex_ty = true /\ input_ok o ex_in /\ (forall j, parse ex_in = Some j -> guards o j) /\ parse ex_in <> None.
 Proof. exact agreement_example_hypotheses. Qed.
+Print Assumptions C01_bind_agree_nonvacuous.
 
 Example C01_bind_agree_example :
   sonic_unmarshal h1 Jit opts_std ex_ty ex_in ex_v0 = Ok ex_out /\ std_unmarshal opts_std ex_ty ex_in ex_v0 = Ok ex_out /\
   sonic_unmarshal h1 Jit opts_default ex_ty ex_in ex_v0 = Ok ex_out.
 Proof. exact agreement_example_values. Qed.
+Print Assumptions C01_bind_agree_example.
 
 (* strings made of printable ASCII without backslash and quote satisfy the string guards *)
 Theorem C01_plain_strings_ok : forall o b, forallb plain_byte b = true -> str_ok o b /\ key_ok b.
@@ -124,6 +128,7 @@ Theorem C01_mapmerge_refuted :
   sonic_unmarshal h1 Jit opts_std t s VNil = Ok (VMap [(VStr (b "k"), VList [VInt 1; VInt 2] [])]) /\
   std_unmarshal opts_std t s VNil = Ok (VMap [(VStr (b "k"), VList [VInt 0; VInt 2] [])]).
 Proof. exact mapmerge_refuted. Qed.
+Print Assumptions C01_mapmerge_refuted.
 
 Theorem C01_mapmerge_null_refuted :
   let t := TMap KStr (TInt U16) in
@@ -131,6 +136,7 @@ Theorem C01_mapmerge_null_refuted :
   sonic_unmarshal h1 Jit opts_std t (b "{""k"":null}") v = Ok (VMap [(VStr (b "k"), VInt 65535)]) /\
   std_unmarshal opts_std t (b "{""k"":null}") v = Ok (VMap [(VStr (b "k"), VInt 0)]).
 Proof. exact mapmerge_null_refuted. Qed.
+Print Assumptions C01_mapmerge_null_refuted.
 
 Theorem C01_f32_double_rounding_refuted :
   sonic_unmarshal h1 Jit opts_std TF32 (b "1.00000005960464477539062500000000000000000001") (VFlt 0) = Ok (VFlt 1065353216) /\
@@ -138,11 +144,13 @@ Theorem C01_f32_double_rounding_refuted :
   sonic_unmarshal h1 Jit opts_std TF32 (b "340282356779733661637539395458142568447") (VFlt 0) = Err /\
   std_unmarshal opts_std TF32 (b "340282356779733661637539395458142568447") (VFlt 0) = Ok (VFlt 2139095039).
 Proof. exact f32_double_rounding_refuted. Qed.
+Print Assumptions C01_f32_double_rounding_refuted.
 
 Theorem C01_ptrptr_null_refuted :
   sonic_unmarshal h1 Jit opts_std (TPtr (TPtr TUnm)) (b "null") VNil = Err /\
   std_unmarshal opts_std (TPtr (TPtr TUnm)) (b "null") VNil = Ok VNil.
 Proof. exact ptrptr_null_refuted. Qed.
+Print Assumptions C01_ptrptr_null_refuted.
 
 (* repaired (afd5482): a uint32 map key above 2^32-1 is rejected by both *)
 Theorem C01_u32_map_key_agree :
@@ -150,6 +158,7 @@ Theorem C01_u32_map_key_agree :
   std_unmarshal opts_std (TMap (KInt U32) (TInt I64)) (b "{""4294967296"":1}") VNil = Err /\
   sonic_unmarshal h1 Jit opts_std (TMap (KInt U32) (TInt I64)) (b "{""4294967295"":1}") VNil = Ok (VMap [(VInt 4294967295, VInt 1)]).
 Proof. exact u32_map_key_agree. Qed.
+Print Assumptions C01_u32_map_key_agree.
 
 Theorem C01_quoted_string_refuted :
   let t := TStruct (qfld "s" TStr FNil) in
@@ -157,16 +166,19 @@ Theorem C01_quoted_string_refuted :
   sonic_unmarshal h1 Jit opts_std t s (VList [VStr []] []) = Ok (VList [VStr [97; 10; 98]%N] []) /\
   std_unmarshal opts_std t s (VList [VStr []] []) = Err.
 Proof. exact quoted_string_refuted. Qed.
+Print Assumptions C01_quoted_string_refuted.
 
 Theorem C01_raw_utf8_refuted :
   sonic_unmarshal h1 Jit opts_std TRaw [34; 97; 255; 98; 34]%N VNil = Ok (VStr [34; 97; 239; 191; 189; 98; 34]%N) /\
   std_unmarshal opts_std TRaw [34; 97; 255; 98; 34]%N VNil = Ok (VStr [34; 97; 255; 98; 34]%N).
 Proof. exact raw_utf8_refuted. Qed.
+Print Assumptions C01_raw_utf8_refuted.
 
 Theorem C01_int_key_syntax_refuted :
   sonic_unmarshal h1 Jit opts_std (TMap (KInt I64) (TInt I64)) (b "{""01"":1}") VNil = Err /\
   std_unmarshal opts_std (TMap (KInt I64) (TInt I64)) (b "{""01"":1}") VNil = Unk.
 Proof. exact int_key_syntax_refuted. Qed.
+Print Assumptions C01_int_key_syntax_refuted.
 
 (* the text -0 gives +0 in sonic and -0 in encoding/json: equal for reflect.DeepEqual, hence excluded by `guards`
    rather than listed as a finding *)
@@ -174,3 +186,4 @@ Theorem C01_minus_zero_sign :
   sonic_unmarshal h1 Jit opts_std TF64 (b "-0") (VFlt 0) = Ok (VFlt 0) /\
   std_unmarshal opts_std TF64 (b "-0") (VFlt 0) = Ok (VFlt (2 ^ 63)).
 Proof. exact minus_zero_sign. Qed.
+Print Assumptions C01_minus_zero_sign.
